@@ -484,7 +484,7 @@ fn gen_dops(rng: &mut Rng, directed: Option<usize>) -> Vec<DOp> {
         let pick_inv = |rng: &mut Rng, created: u64| -> u64 { if created == 0 || rng.chance(1, 4) { 20 + rng.below(3) } else { 1 + rng.below(created) } };
         match rng.below(10) {
             0..=2 => { created += 1; let g = *rng.pick(&[0u8, 0, 1, 2, 2]); grants.push(g); ops.push(DOp::Create(g)); }
-            3 => ops.push(DOp::Accept(if rng.chance(1, 8) { None } else { Some((20 + rng.below(3), if rng.chance(4, 5) { 1 } else { 2 }, Some(2 + rng.below(3)))) })),
+            3 => ops.push(DOp::Accept(if rng.chance(1, 8) { None } else { Some((if created > 0 && rng.chance(1, 8) { 1 + rng.below(created) } else { 20 + rng.below(3) }, if rng.chance(4, 5) { 1 } else { 2 }, Some(2 + rng.below(3)))) })),
             4 => ops.push(DOp::Lookup(match rng.below(4) { 0 | 1 => TokRef::Inv(pick_inv(rng, created)), 2 => TokRef::Own, _ => TokRef::Peer(1 + rng.below(4)) }, 1 + rng.below(4))),
             5 | 6 => { used_bad.clear(); ops.push(DOp::Restart); }
             _ => {
@@ -643,7 +643,7 @@ async fn main() {
         for (i, op) in ops.iter().enumerate() { if let DOp::Consume(TokRef::Inv(v), _) = op { if obs[2 * i + 1] == 1 { *grants.entry(*v).or_insert(0) += 1; } } }
         let restarts = ops.iter().filter(|o| matches!(o, DOp::Restart)).count();
         *stats.entry(format!("invdb.{}", if grants.values().any(|c| *c > 1) { "granted-more-than-once" } else if grants.is_empty() { "nothing-consumed" } else { "consumed-once" })).or_insert(0) += 1;
-        cases.push(Case { kind: if n < 2 { "K4-ungrantable-default-room".to_string() } else if n < 6 { "invdb-directed".to_string() } else { "invdb".to_string() },
+        cases.push(Case { kind: if n < 2 { "K4-ungrantable-default-room".to_string() } else if n == 5 { "K5-own-invitation-accepted".to_string() } else if n < 6 { "invdb-directed".to_string() } else { "invdb".to_string() },
                           coq: format!("CInvDb 1%N {{| s_bytes := 1%N; s_pub := 1%N |}} 1%N {}", glist(&terms)), obs,
                           meta: json!({"ops": ops.len(), "restarts": restarts}) });
     }
